@@ -32,6 +32,14 @@ func main() {
 	noEvidence := flag.Bool("no-evidence", false, "do not write evidence (witness runs)")
 	listOnly := flag.Bool("list", false, "print all obligations")
 	flag.Parse()
+	// pin the toolchain (DESIGN.md section 2): go1.26.8 first on PATH, offline, no workspace
+	if _, err := os.Stat("/opt/veriftools/go1.26.8/bin/go"); err == nil {
+		os.Setenv("PATH", "/opt/veriftools/go1.26.8/bin:"+os.Getenv("PATH"))
+	}
+	os.Setenv("GOTOOLCHAIN", "local")
+	os.Setenv("GOPROXY", "off")
+	os.Setenv("GOFLAGS", "-mod=mod")
+	os.Unsetenv("GOWORK")
 	props := flag.Args()
 	if len(props) == 0 {
 		fmt.Fprintln(os.Stderr, "usage: cedarcheck [-repo dir] [-tier quick|thorough] Cxx...|all")
@@ -59,6 +67,7 @@ func main() {
 	}
 	configs := []config{{"linux", "amd64"}}
 	if *tier == "thorough" {
+		InlineDepth = 8
 		configs = append(configs, config{"linux", "386"}, config{"darwin", "arm64"})
 	}
 	start := time.Now()
